@@ -65,6 +65,12 @@ func (t gtype) lean() string {
 	case tStrs:
 		return "List Bytes"
 	}
+	if s, ok := t2TypeNames[t]; ok { // [t2] named types (structs, container/list, maps, pointers) of translate_t2.go
+		return s
+	}
+	if s := leanT1(t); s != "" { // [t1]
+		return s
+	}
 	return "?"
 }
 
@@ -81,6 +87,9 @@ func (t gtype) elem() gtype {
 		return tString
 	case tNodes:
 		return tNode
+	}
+	if et := elemT1(t); et != tBad { // [t1]
+		return et
 	}
 	return tBad
 }
@@ -122,6 +131,11 @@ type tctx struct {
 	usesHash bool               // xxhash.Sum64 ↦ the parameter H
 	result   gtype
 	retHook  func(c *tctx, e ast.Expr, en env) (val, error) // non-nil: how a returned expression is projected
+	// [t2] non-nil: tried first on every expression; false = not handled
+	exprHook func(c *tctx, e ast.Expr, en env) (val, bool, error)
+
+	// [t1] non-nil: additional expression forms of a target (handled = true)
+	hook func(c *tctx, e ast.Expr, en env) (val, bool, error)
 }
 
 type translator struct {
@@ -400,6 +414,11 @@ func (c *tctx) pkgSel(e ast.Expr, en env, pkg, path, sel string) bool {
 }
 
 func (c *tctx) expr(e ast.Expr, en env) (val, error) {
+	if c.exprHook != nil { // [t2]
+		if v, ok, err := c.exprHook(c, e, en); ok || err != nil {
+			return v, err
+		}
+	}
 	// abstraction atoms of the target (e.g. `e.Column`), valid only where their variables are not shadowed
 	if b, ok := c.atoms[c.tr.src(e)]; ok {
 		shadow := false
@@ -410,6 +429,11 @@ func (c *tctx) expr(e ast.Expr, en env) (val, error) {
 		}
 		if !shadow {
 			return val{text: b.lean, typ: b.typ}, nil
+		}
+	}
+	if c.hook != nil { // [t1]
+		if v, handled, err := c.hook(c, e, en); handled || err != nil {
+			return v, err
 		}
 	}
 	switch e := e.(type) {
@@ -580,6 +604,9 @@ func (c *tctx) binary(e *ast.BinaryExpr, en env) (val, error) {
 	case token.ADD, token.SUB, token.MUL:
 		if e.Op == token.ADD && t == tString {
 			return val{text: fmt.Sprintf("(%s ++ %s)", a.text, b.text), typ: tString}, nil
+		}
+		if t == tU64 && e.Op != token.MUL && c.exprHook != nil { // [t2] uint64 + and -: UInt64 arithmetic wraps modulo 2^64 exactly like Go
+			return val{text: fmt.Sprintf("(%s %s %s)", a.text, e.Op, b.text), typ: t}, nil
 		}
 		if t != tInt && t != tInt64 {
 			return val{}, lostf("arithmetic %s on %s (only int/int64, assumed not to overflow)", e.Op, t.lean())
@@ -1559,22 +1586,37 @@ func (tr *translator) openFlags(field, lean string) (unit, error) {
 		return unit{}, lostf("signature of OpenFile")
 	}
 	opts := fd.Type.Params.List[0].Names[0].Name
+	// the returned function literal whose path condition is "no earlier option, and opts.<field>"
 	var lit *ast.FuncLit
 	n := 0
-	for _, s := range fd.Body.List {
-		is, ok := s.(*ast.IfStmt)
-		if !ok || is.Init != nil || tr.src(is.Cond) != opts+"."+field {
-			continue
+	ast.Inspect(fd.Body, func(nd ast.Node) bool {
+		rs, ok := nd.(*ast.ReturnStmt)
+		if !ok || len(rs.Results) != 1 {
+			return true
 		}
-		n++
-		if len(is.Body.List) == 1 && is.Else == nil {
-			if rs, ok := is.Body.List[0].(*ast.ReturnStmt); ok && len(rs.Results) == 1 {
-				lit, _ = rs.Results[0].(*ast.FuncLit)
+		fl, ok := rs.Results[0].(*ast.FuncLit)
+		if !ok {
+			return true
+		}
+		pcs, ok := pathCond(fd.Body.List, rs)
+		if !ok || len(pcs) == 0 {
+			return false
+		}
+		last := pcs[len(pcs)-1]
+		if !last.pos || tr.src(last.e) != opts+"."+field {
+			return false
+		}
+		for _, pc := range pcs[:len(pcs)-1] {
+			if pc.pos {
+				return false
 			}
 		}
-	}
+		n++
+		lit = fl
+		return false
+	})
 	if n != 1 || lit == nil {
-		return unit{}, lostf("no unique `if %s.%s { return func… }` in OpenFile", opts, field)
+		return unit{}, lostf("no unique `return func…` reached exactly when %s.%s holds (and no earlier option) in OpenFile", opts, field)
 	}
 	var names []string
 	for _, fl := range lit.Type.Params.List {
@@ -1621,6 +1663,167 @@ func (tr *translator) openFlags(field, lean string) (unit, error) {
 		params: ps, result: tFlags, body: ind(1) + v.text + "\n"}, nil
 }
 
+// pathCond: the branch conditions under which control reaches `target` inside `stmts`: every enclosing if / else /
+// tagless switch case contributes its condition (pos = false: negated), and so does every earlier sibling `if` one of
+// whose branches definitely returns. ok = false when target is not inside stmts or the path crosses a statement
+// this does not understand (a loop, a tagged switch, a select, …).
+type pcond struct {
+	e   ast.Expr
+	pos bool
+}
+
+func contains(n ast.Node, target ast.Node) bool {
+	if n == nil {
+		return false
+	}
+	found := false
+	ast.Inspect(n, func(x ast.Node) bool {
+		if x == target {
+			found = true
+		}
+		return !found
+	})
+	return found
+}
+
+func pathCond(stmts []ast.Stmt, target ast.Node) ([]pcond, bool) {
+	var acc []pcond
+	for _, s := range stmts {
+		if !contains(s, target) {
+			// an earlier sibling that may leave the function narrows the path
+			if is, ok := s.(*ast.IfStmt); ok && is.Init == nil {
+				bodyRet := definitelyReturns(is.Body.List)
+				switch el := is.Else.(type) {
+				case nil:
+					if bodyRet {
+						acc = append(acc, pcond{is.Cond, false})
+					} else if hasReturn(is.Body.List) {
+						return nil, false
+					}
+				case *ast.BlockStmt:
+					elseRet := definitelyReturns(el.List)
+					switch {
+					case bodyRet && elseRet:
+						return nil, false // unreachable
+					case bodyRet && !hasReturn(el.List):
+						acc = append(acc, pcond{is.Cond, false})
+					case elseRet && !hasReturn(is.Body.List):
+						acc = append(acc, pcond{is.Cond, true})
+					case hasReturn(is.Body.List) || hasReturn(el.List):
+						return nil, false
+					}
+				default:
+					if hasReturn([]ast.Stmt{s}) {
+						return nil, false
+					}
+				}
+			} else if hasReturn([]ast.Stmt{s}) {
+				return nil, false
+			}
+			continue
+		}
+		if s == target {
+			return acc, true
+		}
+		switch x := s.(type) {
+		case *ast.IfStmt:
+			if x.Init != nil {
+				return nil, false
+			}
+			if contains(x.Body, target) {
+				rest, ok := pathCond(x.Body.List, target)
+				return append(append(acc, pcond{x.Cond, true}), rest...), ok
+			}
+			acc = append(acc, pcond{x.Cond, false})
+			switch el := x.Else.(type) {
+			case *ast.BlockStmt:
+				rest, ok := pathCond(el.List, target)
+				return append(acc, rest...), ok
+			case *ast.IfStmt:
+				rest, ok := pathCond([]ast.Stmt{el}, target)
+				return append(acc, rest...), ok
+			}
+			return nil, false
+		case *ast.SwitchStmt:
+			if x.Init != nil || x.Tag != nil {
+				return nil, false
+			}
+			// cases are tried in source order; default is taken when no case holds
+			var hit *ast.CaseClause
+			for _, cs := range x.Body.List {
+				cc := cs.(*ast.CaseClause)
+				for _, b := range cc.Body {
+					if contains(b, target) {
+						hit = cc
+					}
+				}
+			}
+			if hit == nil {
+				return nil, false
+			}
+			for _, cs := range x.Body.List {
+				cc := cs.(*ast.CaseClause)
+				if len(cc.List) > 1 {
+					return nil, false
+				}
+				for _, b := range cc.Body {
+					if bs, ok := b.(*ast.BranchStmt); ok && bs.Tok == token.FALLTHROUGH {
+						return nil, false
+					}
+				}
+				if cc == hit {
+					if len(cc.List) == 1 {
+						acc = append(acc, pcond{cc.List[0], true})
+					} else {
+						// default: negation of every case
+						for _, o := range x.Body.List {
+							if oc := o.(*ast.CaseClause); oc != hit {
+								acc = append(acc, pcond{oc.List[0], false})
+							}
+						}
+					}
+					rest, ok := pathCond(cc.Body, target)
+					return append(acc, rest...), ok
+				}
+				if len(cc.List) == 1 && len(hit.List) == 1 {
+					acc = append(acc, pcond{cc.List[0], false})
+				}
+			}
+			return nil, false
+		case *ast.BlockStmt:
+			rest, ok := pathCond(x.List, target)
+			return append(acc, rest...), ok
+		}
+		return nil, false
+	}
+	return nil, false
+}
+
+// conj: the conjunction of path conditions as one Lean Bool term
+func (c *tctx) conj(pcs []pcond, en env) (val, string, error) {
+	var parts, srcs []string
+	for _, pc := range pcs {
+		v, err := c.typed(pc.e, en, tBool)
+		if err != nil {
+			return val{}, "", err
+		}
+		if pc.pos {
+			parts = append(parts, v.text)
+			srcs = append(srcs, c.tr.src(pc.e))
+		} else {
+			parts = append(parts, "(!"+v.text+")")
+			srcs = append(srcs, "!("+c.tr.src(pc.e)+")")
+		}
+	}
+	if len(parts) == 0 {
+		return val{text: "true", typ: tBool}, "true", nil
+	}
+	if len(parts) == 1 {
+		return val{text: parts[0], typ: tBool}, srcs[0], nil
+	}
+	return val{text: "(" + strings.Join(parts, " && ") + ")", typ: tBool}, strings.Join(srcs, " && "), nil
+}
+
 // headerRune: the function literal given to strings.Map in normalizeHeader
 func (tr *translator) headerRune(lean string) (unit, error) {
 	const rel = "cmd/updog/create.go"
@@ -1665,27 +1868,44 @@ func (tr *translator) newRowsGrouped(lean string) (unit, error) {
 	if fd == nil {
 		return unit{}, lostf("function newRows not found in %s", rel)
 	}
-	var is *ast.IfStmt
+	// the loop over result.Groups, and the branch conditions under which it runs
+	var loop *ast.RangeStmt
 	n := 0
-	for _, s := range fd.Body.List {
-		if x, ok := s.(*ast.IfStmt); ok {
-			n++
-			is = x
+	ast.Inspect(fd.Body, func(nd ast.Node) bool {
+		if rs, ok := nd.(*ast.RangeStmt); ok {
+			if sel, ok := rs.X.(*ast.SelectorExpr); ok && sel.Sel.Name == "Groups" {
+				n++
+				loop = rs
+				return false
+			}
 		}
+		return true
+	})
+	if n != 1 {
+		return unit{}, lostf("newRows has no unique loop over result.Groups")
 	}
-	if n != 1 || is.Init != nil || is.Else == nil {
-		return unit{}, lostf("newRows has no unique top-level if/else")
+	pcs, ok := pathCond(fd.Body.List, loop)
+	if !ok {
+		return unit{}, lostf("the branch conditions leading to the loop over result.Groups in newRows are not understood")
 	}
 	c := tr.newCtx(rel, f)
 	ps, en, err := tr.funcParams(fd.Type, nil, nil)
 	if err != nil {
 		return unit{}, err
 	}
-	v, err := c.typed(is.Cond, en, tBool)
+	assigned, _ := assignedAndDeclared(fd.Body.List)
+	for _, pc := range pcs {
+		for _, id := range rootIdents(pc.e) {
+			if assigned[id] {
+				return unit{}, lostf("newRows assigns %s, which a branch condition reads", id)
+			}
+		}
+	}
+	v, srcText, err := c.conj(pcs, en)
 	if err != nil {
 		return unit{}, err
 	}
-	return unit{name: lean, doc: fmt.Sprintf("condition `%s` under which `newRows` (%s) yields one row per group", tr.src(is.Cond), rel),
+	return unit{name: lean, doc: fmt.Sprintf("condition `%s` under which `newRows` (%s) yields one row per group (the loop over `result.Groups` runs)", srcText, rel),
 		params: ps, result: tBool, body: ind(1) + v.text + "\n"}, nil
 }
 
@@ -1759,7 +1979,11 @@ func (tr *translator) queryID(lean string) (unit, error) {
 
 // ---------------------------------------------------------------- driver
 
+// [t1] genHeader: added the line `import Updog.Basic.GoPreludeT1`
 const genHeader = `import Updog.Basic.GoPrelude
+import Updog.Basic.GoPreludeT1
+import Updog.Basic.GoPreludeT2 -- [t2]
+import Updog.Basic.GoPreludeT6 -- [t6]
 /-
 GENERATED by /verif/extract (translate.go) from the Go source on every run of ./check. Do not edit.
 Lean transcriptions of small pure Go functions, over the primitives of Updog/Basic/GoPrelude.lean.
@@ -1840,6 +2064,9 @@ func translateAll(repo string) (leanText string, lost map[string]string) {
 	emit("newRowsGrouped", u, err)
 	u, err = tr.queryID("queryId")
 	emit("queryId", u, err)
+	tr.translateT1(emit, wrap) // [t1]
+	tr.translateT2(emit, wrap) // [t2] cache.go: nullCache, NewLRUCache, LRUCache.Get, LRUCache.Put
+	tr.translateT6(emit, wrap) // [t6]
 	b.WriteString("end Updog.Gen\n")
 	return b.String(), lost
 }
